@@ -298,6 +298,9 @@ class GPyRegression:
         x = x.reshape((-1, self.input_dim))
         y = y.reshape((-1, 1))
 
+        # The cached RBF terms are not valid for the updated GP
+        self._rbf_is_cached = False
+
         if self._gp is None:
             self._init_gp(x, y)
         else:
@@ -317,6 +320,7 @@ class GPyRegression:
     def optimize(self):
         """Optimize GP hyperparameters."""
         logger.debug("Optimizing GP hyperparameters")
+        self._rbf_is_cached = False
         try:
             self._gp.optimize(self.optimizer, max_iters=self.max_opt_iters)
         except np.linalg.linalg.LinAlgError:
